@@ -202,6 +202,15 @@ func (c *checker) checkResult(r *lazyproto.DecodeResult, def lazyproto.Def, fiel
 			continue
 		}
 		c.calls++
+		// a negative tag addresses the same field (the sign only selects raw access in a definition)
+		var nrsNeg []*lazyproto.DecodeResult
+		var errNeg error
+		if !c.guard("NestedResults(negated "+where+")", func() { nrsNeg, errNeg = r.NestedResults(-tag) }) {
+			c.calls++
+			if (err == nil) != (errNeg == nil) || len(nrs) != len(nrsNeg) {
+				c.fail("NestedResults/negated-tag-differs", where, fmt.Sprintf("tag %d: err=%v results=%d; tag %d: err=%v results=%d", tag, err, len(nrs), -tag, errNeg, len(nrsNeg)))
+			}
+		}
 		wantAll := want
 		if want == lazyref.ENestingOrNotDefined {
 			wantAll = lazyref.ENestingOrNotDefined
